@@ -197,13 +197,16 @@ func emitDeb(b []byte, scratch string, id int) ([]M, error) {
 	}
 	for _, m := range mem {
 		switch {
-		case m.Name == "control.tar.gz":
-			gz, err := splitGzip(m.Data)
-			if err != nil || len(gz) != 1 {
-				return evs, fmt.Errorf("control.tar.gz: %v (%d members)", err, len(gz))
+		case strings.HasPrefix(m.Name, "control.tar"):
+			// (nfpm writes control.tar.gz - that is a clause of the spec; the decoder reads whatever dpkg allows)
+			craw, err := decompress(sniffCompression(m.Data), m.Data)
+			if err != nil {
+				return evs, fmt.Errorf("%s: %v", m.Name, err)
 			}
-			evs = append(evs, structEv("gz_mtime:control", gz[0].Mtime))
-			ctl, err := readTar(bytes.NewReader(gz[0].Raw))
+			if gz, e := splitGzip(m.Data); e == nil && len(gz) == 1 {
+				evs = append(evs, structEv("gz_mtime:control", gz[0].Mtime))
+			}
+			ctl, err := readTar(bytes.NewReader(craw))
 			if err != nil {
 				return evs, fmt.Errorf("control tar: %w", err)
 			}
